@@ -55,7 +55,7 @@ func newInst(t *testing.T) *inst {
 	}
 	// the same construction as storage.CreateTestBBoltStore + didstore.TestStore, without registering a
 	// cleanup per execution on the test (several 10^5 executions per run)
-	kv, err := bbolt.CreateBBoltStore(filepath.Join(dir, "didstore.db"), stoabs.WithNoSync())
+	kv, err := bbolt.CreateBBoltStore(filepath.Join(dir, "didstore.db"), stoabs.WithNoSync(), stoabs.WithLockAcquireTimeout(time.Hour))
 	if err != nil {
 		t.Fatal(err)
 	}
@@ -403,6 +403,8 @@ func memberDiffs(ref, got []field, canonical bool, keep func(name string) bool) 
 		switch {
 		case !ok:
 			cls = "tuple-shape"
+		case strings.HasSuffix(f.Name, "version-count") || strings.HasSuffix(f.Name, "/versions"):
+			cls = "version-count"
 		case isIter(f.Name):
 			cls = iterDiff(rv, f.Val, canonical)
 		default:
@@ -497,6 +499,7 @@ type execution struct {
 	activeAfterDeactivation int
 	unstableRead            string
 	adds                    int
+	addError                string // Add returned an error (no observation was made)
 }
 
 // run delivers the arrivals of c in the given order to a fresh store and observes.
@@ -512,7 +515,8 @@ func run(t *testing.T, c *compiled, order []int, reads int) execution {
 			t.Fatalf("harness: document does not parse: %v", err)
 		}
 		if err := in.store.Add(doc, e.tx); err != nil {
-			t.Fatalf("harness: Add failed for %s order %v position %d: %v", c.name, order, pos, err)
+			x.addError = fmt.Sprintf("arrival %d (event %d): %v", pos, c.arrivals[a], err)
+			return x
 		}
 		x.adds++
 		if e.spec.Doc.Deact {
@@ -718,6 +722,15 @@ func dupRedundant(c *compiled, perm []int) bool {
 // judge evaluates the non-differential clauses of the statement on one execution.
 func judge(r *ev.Run, c *compiled, order []int, x execution, label string) {
 	rcase := replayCase{Scenario: c.sc, Order: order, RefOrder: identity(len(order))}
+	if x.addError != "" {
+		// the causal order is the harness's own baseline: if even that is refused the set is not a valid input
+		if label == "causal order" || label == "reference" {
+			r.Violation("C10|add-fails|causal-order", fmt.Sprintf("set %s: Add fails in the causal order: %s", c.name, x.addError), rcase)
+		} else {
+			r.Violation("C10|add-fails|permuted-order-only", fmt.Sprintf("set %s: the causal order is stored, but in order %v Add fails: %s", c.name, order, x.addError), rcase)
+		}
+		return
+	}
 	if x.unstableRead != "" {
 		r.Violation("C10|read-stability|"+x.unstableRead, fmt.Sprintf("two consecutive reads of the same store state differ (%s) for set %s", x.unstableRead, c.name), rcase)
 	}
@@ -794,6 +807,9 @@ func identity(n int) []int {
 
 // compare is the differential oracle.
 func compare(r *ev.Run, c *compiled, refOrder []int, ref execution, order []int, got execution) {
+	if ref.addError != "" || got.addError != "" {
+		return // reported by judge
+	}
 	if ref.obs.key() == got.obs.key() && ref.reopened.key() == got.reopened.key() {
 		if strings.Join(ref.obs.rawSources, ";") != strings.Join(got.obs.rawSources, ";") {
 			ex := map[string]any{"set": c.name, "order": order}
